@@ -36,6 +36,7 @@ type c10E struct {
 	I  int     `json:"i,omitempty"`
 	Z  int64   `json:"z,omitempty"`
 	Xs []int64 `json:"xs,omitempty"`
+	S  string  `json:"s,omitempty"` // stage name (lstage)
 	A  *c10E   `json:"a,omitempty"`
 	B  *c10E   `json:"b,omitempty"`
 	C  *c10E   `json:"c,omitempty"`
@@ -90,6 +91,33 @@ func (e *c10E) src() string {
 		return e.B.src() + ".accept(e->e<" + e.A.src() + ")"
 	case "lguard":
 		return e.B.src() + ".map(e->e+0%(e-" + e.A.src() + "))"
+	case "lstage":
+		a := e.A.src()
+		switch e.S {
+		case "StMerge":
+			return a + ".merge(" + e.B.src() + ",(x,y)->x<y)"
+		case "StCross":
+			return a + ".cross(" + e.B.src() + ",(x,y)->x+y)"
+		case "StCombine":
+			return a + ".combine((x,y)->x+y)"
+		case "StCombine3":
+			return a + ".combine3((x,y,z)->x+y+z)"
+		case "StCombineN":
+			return a + ".combineN(2,w->w.sum())"
+		case "StCompact":
+			return a + ".compact((x,y)->x=y)"
+		case "StNumber":
+			return a + ".number((i,e)->i+e)"
+		case "StIir":
+			return a + ".iir(e->e,(i,o)->o+i)"
+		case "StIirCombine":
+			return a + ".iirCombine(e->e,(i0,i1,o)->o+i1)"
+		}
+		panic("c10: unknown stage " + e.S)
+	case "lorder":
+		return e.A.src() + ".order(e->e)"
+	case "zcall":
+		return "(y->y*" + e.A.src() + "+" + e.B.src() + ")(" + e.C.src() + ")"
 	case "ltop":
 		return e.B.src() + ".top(" + e.A.src() + ")"
 	case "lskip":
@@ -152,6 +180,16 @@ func (e *c10E) coq() string {
 		return "(LAccept " + e.A.coq() + " " + e.B.coq() + ")"
 	case "lguard":
 		return "(LGuard " + e.A.coq() + " " + e.B.coq() + ")"
+	case "lstage":
+		b := e.A
+		if e.B != nil {
+			b = e.B
+		}
+		return "(LStage " + e.S + " " + e.A.coq() + " " + b.coq() + ")"
+	case "lorder":
+		return "(LOrder " + e.A.coq() + ")"
+	case "zcall":
+		return "(ZCall " + e.A.coq() + " " + e.B.coq() + " " + e.C.coq() + ")"
 	case "ltop":
 		return "(LTop " + e.A.coq() + " " + e.B.coq() + ")"
 	case "lskip":
@@ -295,8 +333,16 @@ func (e *c10E) alloc(next *int, consts []int) int {
 		h := *next
 		*next++
 		return h
-	case "lreverse":
+	case "lreverse", "lorder":
 		e.A.alloc(next, consts)
+		h := *next
+		*next++
+		return h
+	case "lstage":
+		e.A.alloc(next, consts)
+		if e.B != nil {
+			e.B.alloc(next, consts)
+		}
 		h := *next
 		*next++
 		return h
@@ -340,7 +386,12 @@ type c10Prog struct {
 	// i gets the object made (once per session, on the same generator, kept and handed in again and again) by the
 	// maker expression ObjPool[i][|a_i| mod len], a_i the i-th integer argument of the evaluation
 	ObjPool [][]string `json:"obj_pool,omitempty"`
+	// MCoq: the program as a term of the MAP fragment (Heap/MapState.v mprog); its evaluations are also compared
+	// with the map model and the association-list specification (integer outcomes)
+	MCoq string `json:"mcoq,omitempty"`
 }
+
+func (p *c10Prog) modelled() bool { return p.Coq != "" || p.MCoq != "" }
 
 func (p *c10Prog) objMakers(args []int64) []string {
 	var ms []string
@@ -378,7 +429,7 @@ func c10MkProg(name string, defs []c10Def, body *c10E, listBody bool) *c10Prog {
 			ds = append(ds, "DL "+d.E.coq())
 			k := "plain-const"
 			switch d.E.Op {
-			case "lmap", "laccept", "ltop", "lskip", "lconcat", "lnumbers", "lguard":
+			case "lmap", "laccept", "ltop", "lskip", "lconcat", "lnumbers", "lguard", "lstage":
 				k = "lazy-const"
 			case "lappend":
 				k = "spare-const"
@@ -409,6 +460,65 @@ func c10MkProg(name string, defs []c10Def, body *c10E, listBody bool) *c10Prog {
 	return &c10Prog{Name: name, Src: src.String(), Args: []string{"a0", "a1"}, Coq: cq.String(), Consts: consts, NewObjs: next, Class: class, ListBody: listBody}
 }
 
+
+// the MAP fragment: constant maps (literal, put, +, replace folded at Generate time) and put / + / field access /
+// size at run time; source text and the mprog term side by side (keys as code point lists)
+func c10MapModelledPool() []*c10Prog {
+	key := func(k string) string { return CoqStr(k) }
+	lit := func(kv ...any) string {
+		var es []string
+		for i := 0; i < len(kv); i += 2 {
+			es = append(es, fmt.Sprintf("(%s, %d%%Z)", key(kv[i].(string)), kv[i+1].(int)))
+		}
+		return "MLit [" + strings.Join(es, "; ") + "]"
+	}
+	mk := func(name, src string, defs []string, body string) *c10Prog {
+		p := c10Opaque(name, src)
+		p.MCoq = "(mkMP [" + strings.Join(defs, "; ") + "] " + body + ")"
+		return p
+	}
+	get := func(m, k string) string { return "(MZGet " + m + " " + key(k) + ")" }
+	put := func(m, k, v string) string { return "(MPutX " + m + " " + key(k) + " " + v + ")" }
+	add := func(a, b string) string { return "(MZAdd " + a + " " + b + ")" }
+	ab := lit("a", 1, "b", 2)
+	return []*c10Prog{
+		mk("map-modelled-put", "let m0={a:1,b:2}; let m1=m0.put(\"c\",3); m1.put(\"d\",a0).d+m1.size()+m1.a+m0.size()",
+			[]string{ab, "MPut 0 " + key("c") + " 3"},
+			add(add(add(get(put("(MConst 1)", "d", "(SArg 0)"), "d"), "(MZSize (MConst 1))"), get("(MConst 1)", "a")), "(MZSize (MConst 0))")),
+		mk("map-modelled-put-existing", "let m0={a:1,b:2}; let m1=m0.put(\"c\",3); try m1.put(\"c\",a0).size() catch (a1+100)",
+			[]string{ab, "MPut 0 " + key("c") + " 3"},
+			"(MZTry (MZSize "+put("(MConst 1)", "c", "(SArg 0)")+") (MZS (SAdd (SArg 1) (SLit 100))))"),
+		mk("map-modelled-merge", "let m0={a:1,b:2}; let m1={c:3}; (m0.put(\"d\",a0)+m1).size()+(m0.put(\"d\",a1)+m1).d+(m0+m1).c",
+			[]string{ab, lit("c", 3)},
+			add(add("(MZSize (MMergeX "+put("(MConst 0)", "d", "(SArg 0)")+" (MConst 1)))", get("(MMergeX "+put("(MConst 0)", "d", "(SArg 1)")+" (MConst 1))", "d")), get("(MMergeX (MConst 0) (MConst 1))", "c"))),
+		mk("map-modelled-merge-clash", "let m0={a:1,b:2}; let m1=m0.put(\"c\",3); try (m1.put(\"d\",a0)+m0).size() catch (a0-1)",
+			[]string{ab, "MPut 0 " + key("c") + " 3"},
+			"(MZTry (MZSize (MMergeX "+put("(MConst 1)", "d", "(SArg 0)")+" (MConst 0))) (MZS (SAdd (SArg 0) (SLit (-1)))))"),
+		mk("map-modelled-replace", "let m0={a:1,b:2}; let m1=m0.replace(x->{a:7}); m1.a+m1.put(\"z\",a0).z+m0.a+m1.size()",
+			[]string{ab, "MReplace 0 " + key("a") + " 7"},
+			add(add(add(get("(MConst 1)", "a"), get(put("(MConst 1)", "z", "(SArg 0)"), "z")), get("(MConst 0)", "a")), "(MZSize (MConst 1))")),
+		mk("map-modelled-missing-key", "let m0={a:1,b:2}; try m0.put(\"q\",a0).zz catch (a0*2+a1)",
+			[]string{ab},
+			"(MZTry "+get(put("(MConst 0)", "q", "(SArg 0)"), "zz")+" (MZS (SAdd (SMul (SArg 0) (SLit 2)) (SArg 1))))"),
+	}
+}
+
+// constant-folded stateful stage values (Heap/ListHeap.v OStage), traversed - never materialised - by every
+// evaluation, completely or partially; and the same stages applied at run time to argument-dependent lists
+func c10StageModelledPool() []*c10Prog {
+	a0 := zS(sArg(0))
+	var ps []*c10Prog
+	for _, st := range []string{"StMerge", "StCross", "StCombine", "StCombine3", "StCombineN", "StCompact", "StNumber", "StIir", "StIirCombine"} {
+		defs := []c10Def{dL(lLit(1, 1, 2, 3, 3, 1)), dL(lLit(0, 2, 2, 9)), dL(lStage(st, lConst(0), lConst(1)))}
+		ps = append(ps,
+			c10MkProg("stage-modelled-list-"+st, defs, lMap(sArg(0), lConst(2)), true),
+			c10MkProg("stage-modelled-int-"+st, defs, zAdd(zTry(zFirst(lTop(sAdd(sArg(0), sLit(1)), lConst(2))), zS(sLit(-7))), zTry(zSum(lMap(sArg(1), lConst(2))), zS(sLit(-1)))), false),
+			c10MkProg("stage-modelled-runtime-"+st, defs, zTry(zSum(lStage(st, lAppend(lConst(0), a0), lConst(1))), zSize(lAppend(lConst(2), a0))), false),
+		)
+	}
+	return ps
+}
+
 func c10Opaque(name, src string) *c10Prog {
 	return &c10Prog{Name: name, Src: src, Args: []string{"a0", "a1"}, Class: "opaque:" + name}
 }
@@ -429,6 +539,14 @@ func lAppend(l, x *c10E) *c10E {
 func lMap(k, l *c10E) *c10E    { return &c10E{Op: "lmap", A: k, B: l} }
 func lAccept(k, l *c10E) *c10E { return &c10E{Op: "laccept", A: k, B: l} }
 func lGuard(v, l *c10E) *c10E  { return &c10E{Op: "lguard", A: v, B: l} }
+func lStage(st string, a, b *c10E) *c10E {
+	if st != "StMerge" && st != "StCross" {
+		b = nil
+	}
+	return &c10E{Op: "lstage", S: st, A: a, B: b}
+}
+func lOrder(l *c10E) *c10E       { return &c10E{Op: "lorder", A: l} }
+func zCall(a, b, x *c10E) *c10E  { return &c10E{Op: "zcall", A: a, B: b, C: x} }
 func lTop(n, l *c10E) *c10E    { return &c10E{Op: "ltop", A: n, B: l} }
 func lSkip(n, l *c10E) *c10E   { return &c10E{Op: "lskip", A: n, B: l} }
 func lConcat(a, b *c10E) *c10E { return &c10E{Op: "lconcat", A: a, B: b} }
@@ -491,6 +609,12 @@ func c10Pool() []*c10Prog {
 		c10MkProg("guard-at-run-time", lazy, zTry(zSize(lGuard(sArg(0), lConst(1))), zS(sLit(-1))), false),
 		c10MkProg("guard-chain", []c10Def{dL(lNumbers(sLit(6))), dL(lGuard(sLit(4), lConst(0))), dL(lMap(sLit(10), lConst(1))), dL(lConcat(lConst(2), lConst(0)))},
 			zTry(zIndex(lConst(3), a0), zSize(lTop(sArg(1), lConst(2)))), false),
+		// closures capturing ARGUMENTS: created, applied and dropped by one evaluation
+		c10MkProg("closure-captures-modelled", nil, zAdd(zCall(sArg(0), sArg(1), zS(sLit(3))), zCall(sArg(0), sArg(1), zS(sLit(4)))), false),
+		c10MkProg("closure-captures-over-list", lazy, zCall(sArg(0), sArg(1), zSize(lAppend(lConst(1), a0))), false),
+		// order: CopyToSlice (materialises the receiver) + sort
+		c10MkProg("order-const-modelled", []c10Def{dL(lLit(3, 1, 2)), dL(lMap(sLit(1), lConst(0))), dL(lOrder(lConst(1)))}, zAdd(zIndex(lConst(2), a0), zSize(lAppend(lConst(1), a1))), false),
+		c10MkProg("order-at-run-time", lazy, lOrder(lAppend(lReverse(lAppend(lConst(1), a0)), a1)), true),
 		// outside the modelled fragment
 		c10Opaque("lazy-mul-example", "let c=[1,2,3].map(e->e*2); c[a0]+c.append(a1).size()"),
 		c10Opaque("recursion", "func fib(n) if n<2 then n else fib(n-1)+fib(n-2); fib(a0+3)+a1"),
@@ -610,7 +734,7 @@ func c10ObjectPool() []*c10Prog {
 	}
 }
 
-func c10FullPool() []*c10Prog { return append(append(append(c10Pool(), c10FailingPool()...), c10StatefulPool()...), c10ObjectPool()...) }
+func c10FullPool() []*c10Prog { return append(append(append(append(append(c10Pool(), c10MapModelledPool()...), c10StageModelledPool()...), c10FailingPool()...), c10StatefulPool()...), c10ObjectPool()...) }
 
 
 // lazy constants whose MATERIALISATION fails at an element k > 0 (List.Eval must leave the object untouched), and
@@ -1074,7 +1198,7 @@ func c10Oracle(p *c10Prog, args []int64, j int) c10Out {
 			objs = append(objs, c10MakeList(fg, mk))
 		}
 		v, err := c10Call(f, objs, args)
-		o = c10Consume(v, err, j, p.Coq != "")
+		o = c10Consume(v, err, j, p.modelled())
 	}
 	c10OracleCache[key] = o
 	return o
@@ -1202,6 +1326,7 @@ type c10Result struct {
 	coqEvents, coqObs []string
 	outs              []c10Out // per event (gen: zero value)
 	viol              *GoViolation
+	mcases            []string     // evaluations of programs of the map fragment, as Coq terms
 	argViol           *GoViolation // an argument object of the pool changed (reported besides viol)
 	nontriv           bool
 	evals             int
@@ -1272,7 +1397,7 @@ func c10RunSession(c *c10Case, sum *Summary) *c10Result {
 			reps, _ := fn.constReps()
 			nn, evv := n, ev
 			finish := func() {
-				out := c10Consume(v, err, evv.J, fn.prog.Coq != "")
+				out := c10Consume(v, err, evv.J, fn.prog.modelled())
 				res.outs[nn] = out
 				sum.Count("outcome_kind", out.Kind)
 				want := c10Oracle(fn.prog, evv.Args, evv.J)
@@ -1280,6 +1405,16 @@ func c10RunSession(c *c10Case, sum *Summary) *c10Result {
 					res.viol = &GoViolation{CaseID: c.ID, What: fmt.Sprintf("evaluation %d of the session (function %d, %s) differs from the evaluation of the same program with the same arguments on a fresh generator", nn, evv.K, fn.prog.Name),
 						Sig: "history-dependent/" + fn.prog.Class, Expected: want.String(), Observed: out.String(),
 						Human: map[string]any{"program": fn.prog.Src, "args": evv.Args, "consumed": evv.J, "event": nn, "consumption_deferred": evv.Defer}}
+				}
+				if fn.prog.MCoq != "" {
+					o := "None"
+					if out.Kind == "int" {
+						o = "(Some " + c10Z(out.Z) + "%Z)"
+					} else if out.Kind != "err" {
+						o = "(Some 123456789%Z) (* not an integer: " + out.Kind + " *)"
+					}
+					res.mcases = append(res.mcases, fmt.Sprintf("MCase %s %s %s", fn.prog.MCoq, c10ZList(evv.Args), o))
+					sum.Count("map_fragment", "evaluations compared with the map model")
 				}
 				if fn.prog.Coq == "" {
 					res.coqEvents[nn], res.coqObs[nn] = "EScratch []", "XNone"
@@ -1293,7 +1428,7 @@ func c10RunSession(c *c10Case, sum *Summary) *c10Result {
 			if _, isList := v.(*value.List); isList && err == nil && evv.J > 0 {
 				held = append(held, func() {
 					was := res.outs[nn]
-					now := c10Consume(v, nil, evv.J, fn.prog.Coq != "")
+					now := c10Consume(v, nil, evv.J, fn.prog.modelled())
 					sum.Count("held_results", "re-observed at the end of the session")
 					if (was.Kind != now.Kind || was.String() != now.String()) && res.viol == nil {
 						res.viol = &GoViolation{CaseID: c.ID, What: fmt.Sprintf("the list returned by evaluation %d of the session (function %d, %s) shows different elements at the end of the session", nn, evv.K, fn.prog.Name),
@@ -1420,7 +1555,7 @@ func cmdC10(seed int64, tier, outDir string) {
 	sum := NewSummary("C10", seed, tier)
 	sum.Rule = "a session = one generator, <= 50 events (Generate calls of pool/random programs, evaluations with arguments from {0,1,2,3,5,-1}^2, list results consumed 0/1/2/all); non-trivial = some (function, arguments, consumption) is evaluated >= 2 times with >= 1 different evaluation in between and the program has a lazy or appendable (spare capacity) list constant; distinct by the text of the session"
 	evalCap, appCap := c10MeasureCaps(80)
-	cw := NewCaseWriter(outDir, "From P2 Require Import Base.Prelude Heap.ListHeap Heap.FuncState Run.C10Run.",
+	cw := NewCaseWriter(outDir, "From P2 Require Import Base.Prelude Heap.ListHeap Heap.MapHeap Heap.FuncState Heap.MapState Run.C10Run.",
 		"c10_case", "c10_id", "(c10_im go_caps)", "c10_is", 40)
 	cw.prelude = fmt.Sprintf("Definition go_caps := caps_of_tables %s %s.\n", c10NatList(evalCap), c10NatList(appCap))
 	sum.Extra["go_append_capacities"] = map[string]any{"eval_loop": evalCap[:20], "append_to_full": appCap[:20]}
@@ -1469,7 +1604,7 @@ func cmdC10(seed int64, tier, outDir string) {
 			}
 		}
 		sum.Sample(d["session"])
-		cw.Add(fmt.Sprintf("(%d, [%s],\n  [%s])", c.ID, strings.Join(res.coqEvents, "; "), strings.Join(res.coqObs, "; ")))
+		cw.Add(fmt.Sprintf("(%d, [%s],\n  [%s],\n  [%s])", c.ID, strings.Join(res.coqEvents, "; "), strings.Join(res.coqObs, "; "), strings.Join(res.mcases, "; ")))
 	}
 	sort.SliceStable(viols, func(i, j int) bool {
 		return len(fmt.Sprint(viols[i].Human["session"])) < len(fmt.Sprint(viols[j].Human["session"]))
